@@ -685,6 +685,13 @@ func init() {
 		if fr.conc(args[1]) < 0 {
 			panic(targetPanic{iface{tString, "strings.Builder.Grow: negative count"}})
 		}
+		if n := fr.conc(args[1]); n > 1<<24 {
+			if n > 1<<47 {
+				// beyond the runtime's maximum allocation: the real program panics in growslice
+				panic(targetRuntimeError("growslice: len out of range"))
+			}
+			unsupported("strings.Builder.Grow(%d): allocation too large for the engine", n)
+		}
 		return nil
 	})
 	reg("(*strings.Builder).Reset", "byte-slice model", func(fr *frame, args []value) value {
